@@ -6,6 +6,7 @@ package scen
 // recover() around Parse; the call returns.
 
 import (
+	"errors"
 	"encoding/json"
 	"fmt"
 	"math"
@@ -187,6 +188,8 @@ func c06HandZoo(nilIface any, nilErr *zooErr, pi *int, ppi **int, psv *string, s
 		{"float32 NaN", float32(math.NaN())}, {"int8", int8(-1)}, {"uint", uint(1)}, {"uintptr", uintptr(1)},
 		{"json.Number", json.Number("1")}, {"json.Number bad", json.Number("x")}, {"complex", complex(1, 2)}, {"rune", 'x'},
 		{"namedStr", zooNamedStr("x")}, {"namedInt", zooNamedInt(3)},
+		{"namedStr empty", zooNamedStr("")}, {"namedStr spaces", zooNamedStr("  ")}, {"stringer returning the empty string", zooStringer{new(string)}},
+		{"error with an empty message", errors.New("")}, {"[]byte{}", []byte{}}, {"namedInt zero", zooNamedInt(0)}, {"*string to empty", new(string)},
 		{"empty string", ""}, {"spaces", " \t\n"}, {"invalid utf8", "\xff\xfe\xfd"}, {"NUL", "\x00"}, {"64KiB string", big},
 		{"zero time", time.Time{}}, {"far future", time.Date(99999, 1, 1, 0, 0, 0, 0, time.UTC)}, {"*time(nil)", (*time.Time)(nil)}, {"duration", time.Second},
 		{"true", true}, {"int", 42}, {"string", "hello"},
@@ -283,6 +286,27 @@ type c06Long struct {
 	Kxxxxxxxxxxxxxxxxxxxxxxxxxxxxxxxxxxxxxxxxxxxxxxxxxxxxxxxxxxxxxxx string
 }
 
+var c06AnyRe = regexp.MustCompile("^[a-z]+$")
+
+// c06AllStringTests: one String schema carrying every built-in test and every negated form.
+func c06AllStringTests() *z.StringSchema[string] {
+	s := z.String().Min(1).Max(5).Len(2).Email().URL().UUID().HasPrefix("a").HasSuffix("b").Contains("c").
+		ContainsUpper().ContainsDigit().ContainsSpecial().Match(c06AnyRe).OneOf([]string{"a", "b"})
+	s.Not().Len(2)
+	s.Not().Email()
+	s.Not().URL()
+	s.Not().UUID()
+	s.Not().HasPrefix("a")
+	s.Not().HasSuffix("b")
+	s.Not().Contains("c")
+	s.Not().ContainsUpper()
+	s.Not().ContainsDigit()
+	s.Not().ContainsSpecial()
+	s.Not().Match(c06AnyRe)
+	s.Not().OneOf([]string{"a", "b"})
+	return s
+}
+
 func c06Targets() []c06Target {
 	ab := func() *z.StructSchema { return z.Struct(z.Schema{"a": z.String().Required(), "b": z.Int()}) }
 	custom := func() *z.Custom[int] {
@@ -307,6 +331,30 @@ func c06Targets() []c06Target {
 	}
 	return []c06Target{
 		{"String top", func(in any) { var d string; z.String().Parse(in, &d) }},
+		{"String with every built-in test, top", func(in any) { var d string; c06AllStringTests().Parse(in, &d) }},
+		{"String with every built-in test, field", func(in any) {
+			var d c06AB
+			z.Struct(z.Schema{"a": c06AllStringTests(), "b": z.Int()}).Parse(map[string]any{"a": in, "b": 1}, &d)
+		}},
+		{"String with every built-in test, element", func(in any) { var d []string; z.Slice(c06AllStringTests()).Parse([]any{"x", in}, &d) }},
+		{"Int with every built-in test, top", func(in any) {
+			var d int
+			z.Int().GT(1).GTE(1).LT(9).LTE(9).EQ(5).OneOf([]int{4, 5}).Parse(in, &d)
+		}},
+		{"Float64 with every built-in test, top", func(in any) {
+			var d float64
+			z.Float64().GT(1).GTE(1).LT(9).LTE(9).EQ(5).OneOf([]float64{4, 5}).Parse(in, &d)
+		}},
+		{"Time with every built-in test, top", func(in any) {
+			var d time.Time
+			t0 := time.Date(2020, 1, 1, 0, 0, 0, 0, time.UTC)
+			z.Time().After(t0).Before(t0.Add(time.Hour)).EQ(t0).Parse(in, &d)
+		}},
+		{"Bool with its tests, top", func(in any) { var d bool; z.Bool().True().EQ(true).Parse(in, &d) }},
+		{"Slice(String) with every built-in test, top", func(in any) {
+			var d []string
+			z.Slice(z.String().Min(1)).Min(1).Max(3).Len(2).Contains("x").Parse(in, &d)
+		}},
 		{"Int top", func(in any) { var d int; z.Int().Parse(in, &d) }},
 		{"Int32 top", func(in any) { var d int32; z.Int32().Parse(in, &d) }},
 		{"Float64 top", func(in any) { var d float64; z.Float64().Parse(in, &d) }},
